@@ -33,6 +33,10 @@ type descriptor struct {
 	DeclSeed int      `json:"declSeed"` // declaration order permutation
 	Burst    bool     `json:"burst"`    // answer the upstream tasks concurrently
 	Funnel   bool     `json:"funnel"`   // the tokens first merge in another exclusive gateway and reach the gateway under test over ONE incoming flow
+	// DefCond puts a condition on the DEFAULT flow itself ("false" | "true"):
+	// legal XML, and the routing rule ignores it - the default flow is taken
+	// whenever no other condition holds
+	DefCond string `json:"defCond,omitempty"`
 }
 
 type built struct {
@@ -88,6 +92,12 @@ func build(d descriptor) *built {
 		if pos == d.DefPos {
 			g.Default = f.ID
 			bt.DefTask = task.ID
+			switch d.DefCond {
+			case "false":
+				f.Formal, f.Cond = true, gen.False()
+			case "true":
+				f.Formal, f.Cond = true, gen.True()
+			}
 			continue
 		}
 		truth := d.Truth[ci]
@@ -396,23 +406,31 @@ func TestC04Table(t *testing.T) {
 							if funnel && tokens == 1 {
 								continue
 							}
-							d := descriptor{NC: nc, DefPos: defPos, Truth: truth, Tokens: tokens, Lang: lang, Burst: tokens > 1, Funnel: funnel}
-							r := check(t, "TestC04Table", d)
-							total++
-							if nontrivial(d) {
-								nt++
-								if len(samples) < 6 && total%97 == 0 {
-									samples = append(samples, map[string]any{"case": d, "steps": r.Steps})
+							for _, defCond := range []string{"", "false", "true"} {
+								if defCond != "" && (defPos < 0 || tokens > 1) {
+									continue
 								}
-							}
-							classes[fmt.Sprintf("nc=%d", nc)]++
-							classes["lang="+lang]++
-							classes[fmt.Sprintf("tokens=%d", tokens)]++
-							if defPos < 0 && mask == 0 {
-								classes["no-route"]++
-							}
-							if funnel {
-								classes["funnel"]++
+								d := descriptor{NC: nc, DefPos: defPos, Truth: truth, Tokens: tokens, Lang: lang, Burst: tokens > 1, Funnel: funnel, DefCond: defCond}
+								r := check(t, "TestC04Table", d)
+								total++
+								if defCond != "" {
+									classes["default-flow-with-condition"]++
+								}
+								if nontrivial(d) {
+									nt++
+									if len(samples) < 6 && total%97 == 0 {
+										samples = append(samples, map[string]any{"case": d, "steps": r.Steps})
+									}
+								}
+								classes[fmt.Sprintf("nc=%d", nc)]++
+								classes["lang="+lang]++
+								classes[fmt.Sprintf("tokens=%d", tokens)]++
+								if defPos < 0 && mask == 0 {
+									classes["no-route"]++
+								}
+								if funnel {
+									classes["funnel"]++
+								}
 							}
 						}
 					}
@@ -443,6 +461,9 @@ func TestC04Random(t *testing.T) {
 		d := descriptor{NC: nc, DefPos: rapid.IntRange(-1, nc).Draw(rt, "defPos"), Tokens: rapid.IntRange(1, 3).Draw(rt, "tokens"),
 			Lang: rapid.SampledFrom([]string{"expr", "xpath"}).Draw(rt, "lang"), DeclSeed: rapid.IntRange(0, 500).Draw(rt, "declSeed"),
 			Burst: rapid.Bool().Draw(rt, "burst"), Funnel: rapid.Bool().Draw(rt, "funnel")}
+		if d.DefPos >= 0 {
+			d.DefCond = rapid.SampledFrom([]string{"", "", "false", "true"}).Draw(rt, "defCond")
+		}
 		kinds := []string{"var", "cmp", "compound", "informal"}
 		if d.Lang == "expr" {
 			// (the repository's own XPath getDataObject test is skipped as "doesn't quite work yet")
